@@ -37,6 +37,7 @@ type World struct {
 
 func (W *World) contractError(cl *Clause, err error) {
 	msg := fmt.Sprintf("%s:%d: %v", cl.File, cl.Line, err)
+	errClauses[cl] = true
 	for _, e := range W.errors {
 		if e == msg {
 			return
